@@ -3,14 +3,18 @@
 package zzverifecs
 
 import (
+	"errors"
 	"fmt"
 	"net/netip"
 	"os"
 	"strings"
 	"testing"
 
+	"github.com/AdguardTeam/AdGuardDNS/internal/agdcache"
+	"github.com/AdguardTeam/AdGuardDNS/internal/agdtest"
 	"github.com/AdguardTeam/AdGuardDNS/internal/dnsserver/zzverif/vdns"
 	"github.com/AdguardTeam/AdGuardDNS/internal/dnsserver/zzverif/vrt"
+	"github.com/AdguardTeam/AdGuardDNS/internal/geoip"
 	"github.com/AdguardTeam/golibs/netutil"
 	"github.com/miekg/dns"
 )
@@ -23,6 +27,32 @@ var (
 
 type c05Case struct {
 	Events []ecsQuery `json:"events"`
+	// Geo, when set, makes the GeoIP database fail: "all" for every address,
+	// "ecs-addresses" for every address that is not a client's own,
+	// "clients" for the clients' own addresses only.
+	Geo string `json:"geoip_fails_for,omitempty"`
+}
+
+// c05Geo returns the table GeoIP database, failing as mode says.
+func c05Geo(mode string) geoip.Interface {
+	if mode == "" {
+		return ecsGeoIP
+	}
+	clients := map[netip.Addr]bool{}
+	for _, c := range c05Clients {
+		clients[netip.MustParseAddr(c)] = true
+	}
+
+	return &agdtest.GeoIP{
+		OnData: func(_ string, ip netip.Addr) (*geoip.Location, error) {
+			if mode == "all" || (mode == "ecs-addresses") != clients[ip] {
+				return nil, errors.New("geoip: scripted lookup failure")
+			}
+
+			return ecsLocate(ip), nil
+		},
+		OnSubnetByLocation: ecsGeoIP.OnSubnetByLocation,
+	}
 }
 
 // c05Allowed returns the prefixes that may be forwarded upstream for q.
@@ -154,6 +184,10 @@ func TestVerifC05(t *testing.T) {
 	r.Bound("events_reduced_alphabet", len(small))
 
 	run := func(c c05Case) (fs []vrt.Finding) {
+		geo := c05Geo(c.Geo)
+		ecsNewRig := func(kind string, override bool) *ecsRig {
+			return ecsNewRigGeo(kind, override, geo, agdcache.EmptyManager{})
+		}
 		rig := ecsNewRig("ok", false)
 		var obs []string
 		zeroAsked := map[string]bool{}
@@ -233,6 +267,33 @@ func TestVerifC05(t *testing.T) {
 	}
 	vrt.Part(r, "full", gen(full, 1, depthFull), run)
 	vrt.Part(r, "reduced", gen(small, depthFull+1, depthSmall), run)
+	// The GeoIP database fails (for every address, for the addresses of ECS
+	// options only, for the clients' own addresses only): the lookups are
+	// advisory, so the statement holds as it stands - an opt-out is still an
+	// opt-out, a valid option is still echoed, nothing but GeoIP subnets or
+	// the zero prefix goes upstream.
+	var faulty []ecsQuery
+	for _, n := range c05Names[:2] {
+		for _, o := range []string{"", "10.1.3.0/24", "0.0.0.0/0", "10.2.3.0/24", "::/0", "2001:db8:1:2::/64", "badlen"} {
+			for _, c := range []string{c05Clients[0], c05Clients[1], c05Clients[3]} {
+				faulty = append(faulty, ecsQuery{Client: c, Name: n, QType: dns.TypeA, QClass: dns.ClassINET, ECS: o})
+			}
+		}
+	}
+	depthFault := vrt.Pick(r, 2, 3)
+	r.Bound("depth_geoip_fault", depthFault)
+	r.Bound("events_geoip_fault", len(faulty))
+	vrt.Part(r, "geoip-fault", func(emit func(c05Case)) {
+		for _, mode := range []string{"ecs-addresses", "all", "clients"} {
+			vrt.Sequences(len(faulty), 1, depthFault, func(seq []int) {
+				c := c05Case{Geo: mode}
+				for _, i := range seq {
+					c.Events = append(c.Events, faulty[i])
+				}
+				emit(c)
+			})
+		}
+	}, run)
 	r.Finish()
 	os.Exit(0)
 }
